@@ -196,6 +196,14 @@ fn run(r: &mut Run) -> Result<(), MachineryError> {
             check_word(&word, 3, cx);
         }
     })?;
+    r.range("C12/representative-pairs", &format!("{}; each pair (x,y) in the words \"xy\", \"axyb\", \"xy-yx\", \"yxy\" x whitespace x penalty x 4 splitters x limits 0..=4, MAX", reps::pair_desc(t)), reps::pair_space(t), move |i, cx| {
+        let (x, y) = reps::pair_at(t2, i);
+        cx.seq = idx_seq(i);
+        for word in [format!("{x}{y}"), format!("a{x}{y}b"), format!("{x}{y}-{y}{x}"), format!("{y}{x}{y}")] {
+            cx.set_input(&word);
+            check_word(&word, 3, cx);
+        }
+    })?;
     let core = [L, HY, W, CM, D, CSI, OSH, CSIT, CSIL];
     let n = t.pick(5, 7);
     let space = Space { name: "C12/words-core-deeper".into(), menu: menu(&core), max_len: n, desc: format!("words of length <= {} over the 8 symbols that drive hyphen splitting and force-breaking (incl. a CSI with a non-letter final byte)", n) };
